@@ -1,0 +1,38 @@
+//go:build verif
+
+// Contracts for package client (SumDB client), checked by /verif/govc (see /verif/DESIGN.md, C18/C19).
+// This file contains no code: only structured //@ comments keyed by function.
+
+package client
+
+//@ func dataToLeaves
+//@   returns (r)
+//@   ensures[C19.d] len(r) >= 1
+//@   invariant#1 0 <= $i && $i <= len(data) && 0 <= start && start <= $i && len(result) >= 0
+//@   decreases#1 len(data) - $i
+
+//@ func (*SumDBClient).tilePath
+//@   returns (s)
+//@   ensures[C19.t] true
+//@   invariant#1 true
+//@   decreases#1 offset
+
+//@ func (*SumDBClient).TileData
+//@   returns (b, err)
+//@   requires c != nil && c.fetcher != nil
+//@   ensures[C19.t] true
+
+//@ func (*SumDBClient).ParseCheckpointNote
+//@   returns (cp, err)
+//@   requires c != nil
+//@   ensures[C19.p] (err != nil ==> cp == nil) && (err == nil ==> cp != nil)
+
+//@ func (*SumDBClient).FullLeavesAtOffset
+//@   returns (r, err)
+//@   requires c != nil && c.fetcher != nil
+//@   ensures[C19.t] true
+
+//@ func (*SumDBClient).PartialLeavesAtOffset
+//@   returns (r, err)
+//@   requires c != nil && c.fetcher != nil
+//@   ensures[C19.t] true
